@@ -147,6 +147,11 @@ def run(tier, replay):
         pmeta.append(("poke", (lo, hi)))
         progs.append("X%% = %d\r\nPOKE VARPTR(X%%) + 1, X%%\r\nPRINT X%%\r\n" % lo)
         pmeta.append(("poke", (lo, lo)))
+        # ... and as an array element: the poked element itself, and another element of the same array
+        progs.append("DIM A%%(2)\r\nA%%(1) = %d\r\nDEF SEG = VARSEG(A%%(1))\r\nPOKE VARPTR(A%%(1)) + 1, A%%(1)\r\nPRINT A%%(1)\r\n" % lo)
+        pmeta.append(("poke", (lo, lo)))
+        progs.append("DIM A%%(2)\r\nA%%(0) = %d\r\nA%%(2) = %d\r\nDEF SEG = VARSEG(A%%(1))\r\nPOKE VARPTR(A%%(1)), A%%(0)\r\nPOKE VARPTR(A%%(1)) + 1, A%%(2)\r\nPRINT A%%(1)\r\n" % (lo, hi))
+        pmeta.append(("poke", (lo, hi)))
         # elements of a SHARED array of the module, reached from inside a SUB / a FUNCTION
         for head, tail in (("DIM SHARED XS%(3)\r\nN% = 7\r\nP\r\nSUB P\r\n", "END SUB\r\n"), ("DIM SHARED XS%(3)\r\nDIM G%(2)\r\nN% = F%\r\nFUNCTION F%\r\n", "END FUNCTION\r\n"),
                            ("M& = 70000\r\nREDIM SHARED XS%(3)\r\nP\r\nSUB P\r\nL% = 4\r\n", "END SUB\r\n")):
